@@ -119,6 +119,15 @@ def run(chk):
                     states.append([(f, 'truncated', off)])
         for off in (1, 2, 3):
             states.append([(f, 'truncated', off) for f in files if off < sizes[f]])
+        # truncations whose last byte is the byte that also ends a complete pickle (STOP, b'.'): the byte occurs inside pickles as an
+        # operand, so such a file looks finished from its tail while it is not
+        for f in cache_files(pristine):
+            data = open(f, 'rb').read()
+            inner = [i + 1 for i in range(16, len(data) - 1) if data[i] == 0x2e]
+            pick = inner if chk.thorough else (rng.sample(inner, 2) if len(inner) > 2 else inner)
+            for off in pick:
+                states.append([(os.path.basename(f), 'truncated', off)])
+                chk.hist['truncation ending in the STOP byte'] += 1
         fails, bad = [], []
         with concurrent.futures.ThreadPoolExecutor(max_workers=14) as ex:
             results = list(ex.map(run_state, [(pristine, st, scratch_root) for st in states]))
